@@ -4,7 +4,7 @@
    correspondence only). *)
 From Coq Require Import List Arith ZArith Lia Bool.
 Import ListNotations.
-From KDB Require Import Util UtilProofs PropDefs PropLink PropSim PropGrow PropGrowMore PropMove PropSimAct PropGrowAct PropMixedLazy PropMixedPass.
+From KDB Require Import Util UtilProofs PropDefs PropLink PropSim PropGrow PropGrowMore PropMove PropSimAct PropGrowAct PropSimAct2 PropGrowAct2 PropMixedLazy PropMixedPass.
 From KDB Require PropCheck PropAbs.
 
 Section Frag.
@@ -41,16 +41,27 @@ Section Frag.
   Lemma act_opb_sound o : act_opb o = true -> PropGrowAct.act_op o.
   Proof. destruct o; cbn; try discriminate; try (intros; exact I). destruct act as [[[|] tgt]|]; destruct k; cbn; try discriminate; intros; exact I. Qed.
 
+  (* the second phase may also attach observers of valueAboutToChange of unbound properties that write *)
+  Definition act2_synb (o : op) : bool :=
+    match o with PObserve _ KAbout _ _ (Some (false, _)) => true | _ => act_opb o end.
+  Definition act2_opb (w : world) (o : op) : bool :=
+    match o with PObserve p KAbout _ _ (Some (false, _)) => PropGrowAct2.unbound_b w p | _ => act_opb o end.
+  Lemma act2_opb_sound w o : act2_opb w o = true -> PropGrowAct2.act2_op w o.
+  Proof.
+    destruct o; cbn [act2_opb PropGrowAct2.act2_op]; try (apply act_opb_sound).
+    destruct k; try (apply act_opb_sound). destruct act as [[[|] tgt]|]; try (apply act_opb_sound). intros H; exact H.
+  Qed.
+
   Definition grow_act_opb (w : world) (o : op) : bool :=
     match o with
     | PNew _ _ => true
     | PBind p _ MImmediate => lookup_none (w_props w) p
-    | _ => act_opb o
+    | _ => act2_opb w o
     end.
-  Lemma grow_act_opb_sound w o : grow_act_opb w o = true -> PropGrowAct.grow_act_op w o.
+  Lemma grow_act_opb_sound w o : grow_act_opb w o = true -> PropGrowAct2.grow_act2_op w o.
   Proof.
-    destruct o; cbn [grow_act_opb PropGrowAct.grow_act_op]; try (apply act_opb_sound); try (intros; exact I).
-    destruct m; [|apply act_opb_sound]. unfold lookup_none. destruct (lookup (w_props w) p); [discriminate|reflexivity].
+    destruct o; cbn [grow_act_opb PropGrowAct2.grow_act2_op]; try (apply act2_opb_sound); try (intros; exact I).
+    destruct m; [|apply act2_opb_sound]. unfold lookup_none. destruct (lookup (w_props w) p); [discriminate|reflexivity].
   Qed.
 
   Section Runs.
@@ -75,18 +86,24 @@ Section Frag.
     apply andb_true_iff in H. destruct H as [H H3]. apply andb_true_iff in H. destruct H as [H1 H2].
     split; [apply act_opb_sound; exact H1|]. split; [destruct (snd (step1 fn rtl fuel w o)); [discriminate H2|reflexivity]|apply IH; exact H3].
   Qed.
-  Lemma grow_act_okb_sound fuel : forall ops w, run_okb fuel grow_act_opb w ops = true -> PropGrowAct.grow_act_run_ok fn rtl fuel w ops.
+  Lemma act2_okb_sound fuel : forall ops w, run_okb fuel act2_opb w ops = true -> PropGrowAct2.act2_run_ok fn rtl fuel w ops.
   Proof.
-    induction ops as [|o r IH]; intros w H; cbn [run_okb PropGrowAct.grow_act_run_ok] in *; [exact I|].
+    induction ops as [|o r IH]; intros w H; cbn [run_okb PropGrowAct2.act2_run_ok] in *; [exact I|].
+    apply andb_true_iff in H. destruct H as [H H3]. apply andb_true_iff in H. destruct H as [H1 H2].
+    split; [apply act2_opb_sound; exact H1|]. split; [destruct (snd (step1 fn rtl fuel w o)); [discriminate H2|reflexivity]|apply IH; exact H3].
+  Qed.
+  Lemma grow_act_okb_sound fuel : forall ops w, run_okb fuel grow_act_opb w ops = true -> PropGrowAct2.grow_act2_run_ok fn rtl fuel w ops.
+  Proof.
+    induction ops as [|o r IH]; intros w H; cbn [run_okb PropGrowAct2.grow_act2_run_ok] in *; [exact I|].
     apply andb_true_iff in H. destruct H as [H H3]. apply andb_true_iff in H. destruct H as [H1 H2].
     split; [apply grow_act_opb_sound; exact H1|]. split; [destruct (snd (step1 fn rtl fuel w o)); [discriminate H2|reflexivity]|apply IH; exact H3].
   Qed.
 
   (* the history is a growing network (with moves, rebinding, reset, destruction) for its first k operations and then only attaches
-     observers and assigns - or it is a network growing in any order with writing observers *)
+     observers (also writing ones, of valueChanged or - on unbound properties - of valueAboutToChange) and assigns - or it is a network growing in any order with writing observers *)
   Definition in_c02_fragment (fuel k : nat) (ops : list op) : bool :=
     run_okb fuel grow_act_opb world0 ops ||
-    (run_okb fuel grow3_opb world0 (firstn k ops) && run_okb fuel (fun _ => act_opb) (run fn rtl fuel (firstn k ops)) (skipn k ops)).
+    (run_okb fuel grow3_opb world0 (firstn k ops) && run_okb fuel act2_opb (run fn rtl fuel (firstn k ops)) (skipn k ops)).
 
   Theorem in_c02_fragment_sound fuel k ops q x pr z :
     in_c02_fragment fuel k ops = true ->
@@ -95,10 +112,10 @@ Section Frag.
     PropCheck.den_node fn (values w) (b_root x) = Some z -> pr_value pr = z.
   Proof.
     intros H w Hi Hq Hd. apply orb_true_iff in H. destruct H as [H|H].
-    - exact (PropGrowAct.grow_act_reachable_consistent fn rtl fuel ops q x pr z (grow_act_okb_sound fuel ops world0 H) Hi Hq Hd).
+    - exact (PropGrowAct2.grow_act2_reachable_consistent fn rtl fuel ops q x pr z (grow_act_okb_sound fuel ops world0 H) Hi Hq Hd).
     - apply andb_true_iff in H. destruct H as [H1 H2].
-      pose proof (PropGrowAct.network_then_acting_observers_consistent fn rtl fuel (firstn k ops) (skipn k ops) q x pr z
-                    (grow3_okb_sound fuel _ _ H1) (act_okb_sound fuel _ _ H2)) as T.
+      pose proof (PropGrowAct2.network_then_observers_of_both_kinds_consistent fn rtl fuel (firstn k ops) (skipn k ops) q x pr z
+                    (grow3_okb_sound fuel _ _ H1) (act2_okb_sound fuel _ _ H2)) as T.
       rewrite firstn_skipn in T. exact (T Hi Hq Hd).
   Qed.
 
